@@ -31,17 +31,17 @@ pub struct C18;
 /// process-wide cache key would confuse (flags that look like a pattern prefix,
 /// same pattern under different flags, same text under the other dialect).
 const POOL: [(&str, &str, [&str; 2], &str); 11] = [
-    ("(a)(b)?", "", ["aab", "xab"], "<$1|$2>"),
-    ("(?:a?|b)*c", "", ["cabc", "aab"], "<$0>"),
-    ("(a)\\1|b", "i", ["aAb", "ab"], "<$1>"),
-    ("\\p{IsGreek}+|a", "", ["\u{3b1}\u{3b2}a", "xab"], "[$0]"),
-    ("^a|b", "m", ["a\nab", "aab"], "<$0>"),
-    ("bc", "i", ["aBC", "xibcx"], "-"),
-    ("ibc", "", ["aBC", "xibcx"], "-"),
-    ("a.c", "s", ["a\nc", "abc"], "<$0>"),
-    ("a.c", "", ["a\nc", "abc"], "<$0>"),
-    ("^a|b", "", ["a\nab", "aab"], "<$0>"),
-    ("^a|b", ";xsd", ["a\nab", "^ab"], "<$0>"),
+    ("(a)(b)?", "", ["aab", "xab -- 0123456789 0123456789 0123456789 0123456789 0123456789 -- a -- ab ...."], "<$1|$2>"),
+    ("(?:a?|b)*c", "", ["cabc", "aab 0123456789 0123456789 0123456789 0123456789 0123456789 xx abc xx c tail.."], "<$0>"),
+    ("(a)\\1|b", "i", ["aAb", "ab 0123456789 0123456789 0123456789 0123456789 0123456789 xx aA xx Aa tail.."], "<$1>"),
+    ("\\p{IsGreek}+|a", "", ["\u{3b1}\u{3b2}a", "xab 0123456789 0123456789 0123456789 0123456789 012345 \u{3b1}\u{3c9} -- a -- tail"], "[$0]"),
+    ("^a|b", "m", ["a\nab", "aab 0123456789 0123456789 0123456789 0123456789\na 0123456789 xx\nb tail"], "<$0>"),
+    ("bc", "i", ["aBC", "xibcx 0123456789 0123456789 0123456789 0123456789 0123456789 BC -- bc tail"], "-"),
+    ("ibc", "", ["aBC", "xibcx 0123456789 0123456789 0123456789 0123456789 0123456789 BC -- ibc tail"], "-"),
+    ("a.c", "s", ["a\nc", "abc 0123456789 0123456789 0123456789 0123456789 0123456789 a\nc -- a-c tail"], "<$0>"),
+    ("a.c", "", ["a\nc", "abc 0123456789 0123456789 0123456789 0123456789 0123456789 a\nc -- a-c tail"], "<$0>"),
+    ("^a|b", "", ["a\nab", "aab 0123456789 0123456789 0123456789 0123456789\na 0123456789 xx\nb tail"], "<$0>"),
+    ("^a|b", ";xsd", ["a\nab", "^ab 0123456789 0123456789 0123456789 0123456789 0123456789 ^a -- b tail.."], "<$0>"),
 ];
 
 fn pool_flags(p: usize) -> (&'static str, bool) {
@@ -237,7 +237,7 @@ fn solo_key(w: &World, s: Step) -> Option<String> {
     })
 }
 
-const SOLO_MAX_STEPS: usize = 12;
+const SOLO_MAX_STEPS: usize = 24;
 
 /// `rxmc c18solo <p>`: print the solo observation of every step that involves
 /// pool pattern p, computed in this (pristine) process.
@@ -782,14 +782,16 @@ impl Check for C18 {
         let nb = sched_bounds(ctx.tier).len() as u64;
         let depth = history_depth(ctx.tier);
         Plan {
-            chunks: np + ns * nb + 1,
+            chunks: np + ns * nb + 2,
             layer_of: Box::new(move |c| {
                 if c < np {
                     format!("histories to depth {}", depth)
                 } else if c < np + ns * nb {
                     format!("schedules, preemption bound {}", (c - np) % nb)
-                } else {
+                } else if c == np + ns * nb {
                     "Send + Sync probe".to_string()
+                } else {
+                    "free-running first-call supplement (sampling)".to_string()
                 }
             }),
             description: format!(
@@ -923,6 +925,10 @@ impl Check for C18 {
             ]));
             return;
         }
+        if chunk == np + scs.len() as u64 * nb + 1 {
+            free_running_supplement(out);
+            return;
+        }
         // Send + Sync probe
         out.inc("states");
         out.inc("validated");
@@ -949,6 +955,87 @@ impl Check for C18 {
         }
         out.sample(J::obj(vec![("probe", J::s("fn f<T: Send + Sync>() {} f::<regexml::Regex>()"))]));
     }
+}
+
+// ---------------------------------------------------------------------------
+// free-running supplement
+
+/// Four real threads, released together by a barrier, make their first calls
+/// on a freshly compiled shared Regex; repeated with fresh objects. This is
+/// SAMPLING (the OS decides the interleaving): silence proves nothing and the
+/// exhaustive parts above decide the property. It is kept because it can
+/// observe races inside code that has no scheduling point (state built lazily
+/// on the first call with atomics), which the controlled scheduler cannot
+/// preempt. A discrepancy is a real counterexample (results are compared with
+/// a private, single-threaded Regex).
+fn free_running_supplement(out: &mut ChunkOut) {
+    const PATTERNS: [(&str, &str, &str); 8] = [
+        ("[x-z]b+", "", "zbb"),
+        ("[\u{fe}\u{ff}]b", "", "a\u{ff}b"),
+        ("abc", "i", "xxABc"),
+        ("\\p{IsGreek}+", "", "x\u{3b1}\u{3b2}"),
+        ("^a|b", "m", "x\na"),
+        ("(a)\\1", "", "baa"),
+        ("(?:a?|b)*c", "", "abc"),
+        ("\\d{2,}[a-f]", "", "x123e"),
+    ];
+    let rounds = 150;
+    let threads = 4;
+    let mut rounds_run = 0u64;
+    for (p, f, inp) in PATTERNS {
+        let solo = match Regex::xpath(p, f) {
+            Ok(r) => r,
+            Err(_) => continue,
+        };
+        let want = (solo.is_match(inp), solo.replace_all(inp, "<$0>").ok(), solo.tokenize(inp).ok().map(|t| t.collect::<Vec<_>>()));
+        let mut bad: Option<String> = None;
+        for _ in 0..rounds {
+            let shared = Arc::new(Shared(vec![Regex::xpath(p, f).unwrap()]));
+            let barrier = Arc::new(std::sync::Barrier::new(threads));
+            let hs: Vec<_> = (0..threads)
+                .map(|_| {
+                    let sh = shared.clone();
+                    let b = barrier.clone();
+                    let inp = inp.to_string();
+                    std::thread::spawn(move || {
+                        b.wait();
+                        let r = &sh.0[0];
+                        (r.is_match(&inp), r.replace_all(&inp, "<$0>").ok(), r.tokenize(&inp).ok().map(|t| t.collect::<Vec<_>>()))
+                    })
+                })
+                .collect();
+            for h in hs {
+                match h.join() {
+                    Ok(got) => {
+                        if got != want && bad.is_none() {
+                            bad = Some(format!("{:?}", got));
+                        }
+                    }
+                    Err(_) => {
+                        if bad.is_none() {
+                            bad = Some("thread panicked".to_string());
+                        }
+                    }
+                }
+            }
+            rounds_run += 1;
+        }
+        out.add("free_running_rounds", rounds as u64);
+        if let Some(got) = bad {
+            let mut case = Case::new("FREERUN", p, f).input(inp);
+            case.api = "first call from 4 threads".into();
+            out.fail(
+                "C18",
+                &case,
+                "ConcurrentFirstCallDiffers",
+                &format!("{:?}", want),
+                &got,
+                "free-running supplement: observed with real threads released by a barrier on a fresh shared Regex; not replayable by schedule (the interleaving was chosen by the OS)",
+            );
+        }
+    }
+    out.add("states", rounds_run);
+    out.sample(J::obj(vec![("free_running_supplement", J::s("4 threads x first call on a fresh shared Regex, 8 patterns x 150 rounds; sampling, decides nothing on silence"))]));
 }
 
 // ---------------------------------------------------------------------------
